@@ -488,7 +488,7 @@ def gen_cases(ctx):
         W = 12 * rng.choice([49, 50, 51, 60, 96, 97, 100, rng.randrange(49, 260)])
         ns = gen_ns(rng, W)
         if i % 20 == 7:                 # several reconstruction windows (60000 samples each)
-            ns = rng.choice([60000, 60001, 120000, 120001, 60000 + rng.randrange(1, 60000)])
+            ns = rng.choice([60001, 120000, 120001, 60000 + rng.randrange(1, 60000), 60000])
             W = 12 * rng.choice([400, 1000, 5000])
             nap = rng.choice([1, 2])
         cases.append({"nap": nap, "ns": ns, "W": W, "labels": gen_labels(rng, nap),
@@ -583,8 +583,9 @@ def run(ctx):
                 ctx.fail("the same sample value is written differently at different cells", dsc, {"kind": "content"})
         if nap == 384 and ci < 3:           # every distinct value present, uncapped (extracted model only)
             vb = values_case(case, data, obs, ctx.rng, cap=0)
-            inputs.append(vb[0]), outputs.append(vb[1]), descr.append(dict(dsc, mode="values_all"))
-            dist["values_compared"] += vb[0][4]
+            if vb:
+                inputs.append(vb[0]), outputs.append(vb[1]), descr.append(dict(dsc, mode="values_all"))
+                dist["values_compared"] += vb[0][4]
         for mi, mo in meta_cases(case, obs):
             inputs.append(mi), outputs.append(mo), descr.append(dict(dsc, mode="meta"))
         if case["full"]:
